@@ -233,6 +233,7 @@ def est_template(ctx, facts, fid):
         ctx.violation("EST", fid, "F2 loop", where, "expected exactly one for loop, found %d loop(s)" % len([n for n in t.nodes if n["k"] == "Loop"]))
         return None
     fl = fls[0]
+    R = resolver_of(fn)
     var = hirq.show_pat(fl["pat"])
     # F3: the accumulation
     accs = [n for n in user_nodes(fn) if n["k"] in ("Assign", "AssignOp") and t.contains(fl["body"], n)]
@@ -241,7 +242,7 @@ def est_template(ctx, facts, fid):
         return None
     acc = accs[0]
     cnt = nf.nf(acc["l"])
-    conds = nf.all_conditions(t, acc, stop=fl["loop"])
+    conds = nf.all_conditions(t, acc, stop=fl["loop"], res=R)
     eq = [c for c in conds if c[0] == "cmp" and c[2] == "=="]
     if len(conds) != 1 or len(eq) != 1:
         ctx.violation("EST", fid, "F3 condition", hirq.loc(acc), "`%s += 1` must be guarded by exactly one equality a[i] == b[i]; conditions: %s" % (cnt, conds))
@@ -271,7 +272,7 @@ def est_template(ctx, facts, fid):
         a, b = m1.group(1), m2.group(1)
         lens = {"%s.len()" % a, "%s.len()" % b}
         # F2: range and exits
-        rng = nf.nf(fl["iter"], True)
+        rng = nf.nf(fl["iter"], True, res=R)
         m = re.match(r"^std::ops::Range\{start:(.*), end:(.*)\}$", rng)
         if not m or m.group(1) != "0" or _resolve(fn, m.group(2)) not in lens:
             ctx.violation("EST", fid, "F2 range", hirq.loc(fl["loop"]), "the loop ranges over `%s`; expected 0..len of one of the two sketches (%s)" % (rng, sorted(lens)))
@@ -281,7 +282,7 @@ def est_template(ctx, facts, fid):
         ctx.violation("EST", fid, "F2 early exit", hirq.loc(fl["loop"]), "the counting loop can be left early (%s)" % exits)
         return None
     # F1: the length comparison before the loop
-    facts_before = nf.early_facts(t, fl["match"])
+    facts_before = nf.early_facts(t, fl["match"], res=R)
     okf1 = False
     for f in facts_before:
         if f[0] == "cmp" and f[2] == "==":
@@ -303,7 +304,7 @@ def est_template(ctx, facts, fid):
     if len(rets) != 1:
         ctx.violation("EST", fid, "F4 result", where, "expected one result expression after the loop, found %d" % len(rets))
         return None
-    r = nf.nf(rets[0], True)
+    r = nf.nf(rets[0], True, res=R)
     r = re.sub(r"^std::prelude::v1::Ok\((.*)\)$", r"\1", r)
     r = _resolve(fn, r)
     r = r.replace("num::NumCast::from(", "(").replace(").unwrap()", ")")
